@@ -507,6 +507,14 @@ func (ctx *context) compareNodesetsAndPush(
 			return
 		}
 		set1 = op1.(nodesetDatum).literalSlice()
+	} else if isDatumSlice(op1) {
+		// Values of a multi-valued leaf(-list): compared like a nodeset,
+		// ie true if any of the values satisfies the comparison.
+		if len(op1.(datumSliceDatum).ds) == 0 {
+			ctx.pushDatum(NewBoolDatum(false))
+			return
+		}
+		set1 = op1.(datumSliceDatum).ds
 	}
 
 	if isNodeset(op2) {
@@ -515,6 +523,19 @@ func (ctx *context) compareNodesetsAndPush(
 			return
 		}
 		set2 = op2.(nodesetDatum).literalSlice()
+	} else if isDatumSlice(op2) {
+		if len(op2.(datumSliceDatum).ds) == 0 {
+			ctx.pushDatum(NewBoolDatum(false))
+			return
+		}
+		set2 = op2.(datumSliceDatum).ds
+	}
+
+	// XPATH 1.0 section 3.4: when the other operand is a boolean, the
+	// (non-empty) nodeset is converted to a boolean as a whole.
+	if isBool(op1) || isBool(op2) {
+		ctx.pushDatum(NewBoolDatum(boolCompare(op1, op2)))
+		return
 	}
 
 	ctx.compareAndPushNodesets(
@@ -541,8 +562,8 @@ func (ctx *context) popCompareEqualityAndPush(
 	op2 := ctx.popDatum()
 	op1 := ctx.popDatum()
 
-	op1IsNodeset := isNodeset(op1)
-	op2IsNodeset := isNodeset(op2)
+	op1IsNodeset := isNodeset(op1) || isDatumSlice(op1)
+	op2IsNodeset := isNodeset(op2) || isDatumSlice(op2)
 
 	switch {
 	case op1IsNodeset || op2IsNodeset:
@@ -581,8 +602,8 @@ func (ctx *context) popCompareRelationalAndPush(
 	op2 := ctx.popDatum()
 	op1 := ctx.popDatum()
 
-	op1IsNodeset := isNodeset(op1)
-	op2IsNodeset := isNodeset(op2)
+	op1IsNodeset := isNodeset(op1) || isDatumSlice(op1)
+	op2IsNodeset := isNodeset(op2) || isDatumSlice(op2)
 
 	switch {
 	case op1IsNodeset || op2IsNodeset:
